@@ -35,6 +35,7 @@ def rich_ops():
         al.create(al.SH),  # one-stem prefix enclosing everything under http
         al.page(al.LONGP, True),  # multi-block stem read right before short ones
         al.links((al.LONGP, Ax), (Ab, al.LONGP)),
+        al.pages((al.LONGQ, al.LONGQ + b"p:k|"), True),  # a stem of exactly 3 blocks, then a later node
     ]
 
 
